@@ -345,10 +345,45 @@ package common
 // that ComputeMerkleRoot computes it): named here so that C02 can say which list the header's root is compared with
 //@ uf txRootOf(a ArrU64B256, off uint64, n int) [32]byte
 
+// ---- C03: the transaction root is the Bitcoin-style double-SHA-256 binary Merkle root ----------------------
+// dh: parent of two nodes; mroot(A, o, n): reference root of the n hashes A[o..o+n). Its definition is the
+// textbook recursion, stated as the two defining equations assumed at entry of ComputeMerkleRoot:
+//   mroot(A,o,1) = A[o];  for n > 1: mroot(A,o,n) = mroot(A',o,(n+1)/2) where A' holds, at o+j, dh of the
+//   j-th pair of A (an odd last node paired with itself).
+//@ spec dh(a common.Uint256, b common.Uint256) common.Uint256 = sha256(bcat(bytes(""), bytes(sha256(bcat(bcat(bytes(""), bytes(a)), bytes(b))))))
+//@ uf mroot(a ArrU64B256, off uint64, n uint64) [32]byte
+
 //@ func ComputeMerkleRoot
-//@   trusted   -- provisional (C03): uses the argument as workspace
-//@   modifies elems(hashes)
-//@   ensures result == txRootOf(old(arr(hashes)), off(hashes), len(hashes))
+//@   property C03
+//@   mode abstract
+//@   nopanic on
+//@   modifies elems(hashes), wrIn   -- assumed frame (abstract mode): the argument is used as workspace
+//@   requires len(hashes) <= 4294967296
+//@   assume before "return hashes[0]" : mroot(arr(hashes), off(hashes), 1) == sel(arr(hashes), off(hashes))   -- defining equation for one node
+//@   ensures[c03-empty] len(hashes) == 0 ==> forall k int :: 0 <= k && k < 32 ==> result[k] == 0
+//@   ensures[c03-root] len(hashes) > 0 ==> result == mroot(old(arr(hashes)), off(hashes), uint64(len(hashes)))
+//@   ghost var L ArrU64B256
+//@   ghost var gn uint64 = 0
+//@   set before "n := len(hashes) / 2" : L := arr(hashes)
+//@   set before "n := len(hashes) / 2" : gn := uint64(len(hashes))
+//@   -- proof hints for the level step (each discharged on its own): the array after the level is the next level of L
+//@   assert[c03-level-pairs] after "if len(hashes) == 2*n+1" : forall j uint64 :: j < gn/2 ==> sel(arr(hashes), off(hashes)+j) == dh(sel(L, off(hashes)+2*j), sel(L, off(hashes)+2*j+1))
+//@   assert[c03-level-odd] after "if len(hashes) == 2*n+1" : gn%2 == 1 ==> sel(arr(hashes), off(hashes)+gn/2) == dh(sel(L, off(hashes)+gn-1), sel(L, off(hashes)+gn-1))
+//@   assert[c03-level-len] after "if len(hashes) == 2*n+1" : uint64(len(hashes)) == (gn+1)/2 && gn > 1 && gn <= 4294967296
+//@   -- the defining equation of mroot, instantiated for this level (A = L, B = the array after the level)
+//@   assume after "if len(hashes) == 2*n+1" : ((forall j uint64 :: j < gn/2 ==> sel(arr(hashes), off(hashes)+j) == dh(sel(L, off(hashes)+2*j), sel(L, off(hashes)+2*j+1))) && (gn%2 == 1 ==> sel(arr(hashes), off(hashes)+gn/2) == dh(sel(L, off(hashes)+gn-1), sel(L, off(hashes)+gn-1))) && gn > 1) ==> mroot(L, off(hashes), gn) == mroot(arr(hashes), off(hashes), (gn+1)/2)
+//@   assert[c03-level-root] after "if len(hashes) == 2*n+1" : mroot(L, off(hashes), gn) == mroot(arr(hashes), off(hashes), (gn+1)/2)
+//@   loop 2 modifies fresh
+//@   loop 1 invariant len(hashes) <= cap(hashes)
+//@   loop 1 invariant len(hashes) >= 1 && len(hashes) <= old(len(hashes)) && ref(hashes) == old(ref(hashes)) && off(hashes) == old(off(hashes)) && !isnil(sha) && isSha256(ref(sha))
+//@   loop 1 invariant mroot(arr(hashes), off(hashes), uint64(len(hashes))) == mroot(old(arr(hashes)), off(hashes), uint64(old(len(hashes))))
+//@   loop 1 decreases len(hashes)
+//@   loop 2 invariant 0 <= i && i <= n && n == len(hashes)/2 && !isnil(sha) && isSha256(ref(sha))
+//@   loop 2 invariant forall j uint64 :: j < uint64(i) ==> hashes[j] == dh(sel(L, off(hashes)+2*j), sel(L, off(hashes)+2*j+1))
+//@   loop 2 invariant forall j uint64 :: j >= uint64(i) && j < uint64(len(hashes)) ==> hashes[j] == sel(L, off(hashes)+j)
+//@   loop 2 decreases n - i
+
+
 
 //@ func (*ZeroCopySource).NextString
 //@   property C01
